@@ -201,7 +201,8 @@ class Rx:
     def __init__(self, src, pysrc=None):
         import re
         self.src = src
-        self.re = re.compile(b"(?=(" + (pysrc or src).encode() + b"))", re.S)      # lookahead: every start offset, overlaps included
+        # lookahead: every start offset, overlaps included; no DOTALL: without /s yara's '.' does not match a newline either
+        self.re = re.compile(b"(?=(" + (pysrc or src).encode() + b"))")
 
     def findall(self, b):
         return [(m.start(), len(m.group(1))) for m in self.re.finditer(b)]
@@ -235,6 +236,19 @@ class HexJump(Rx):
         self.hexsrc = "{ %s [%d-%d] %s }" % (" ".join("%02x" % x for x in head), lo, hi, " ".join("%02x" % x for x in tail))
         self.src = None
         self.re = re.compile(b"(?=(" + re.escape(head) + (b"[\\s\\S]{%d,%d}?" % (lo, hi)) + re.escape(tail) + b"))", re.S)
+
+
+class HexAlt(Rx):
+    """hex string with an alternative AND a bounded jump, e.g. { 73 74 61 ( 72 | 52 ) 74 [4-8] 65 6e 64 }: not a "fast" hex string, it is
+    verified by the regexp engine (fibers with repeat counters from the scanner's pool); jumps are non-greedy and match any byte"""
+
+    def __init__(self, pre, alts, post, lo, hi, tail):
+        import re
+        hx2 = lambda bs: " ".join("%02x" % x for x in bs)
+        self.hexsrc = "{ %s ( %s ) %s [%d-%d] %s }" % (hx2(pre), " | ".join("%02x" % a for a in alts), hx2(post), lo, hi, hx2(tail))
+        self.src = None
+        self.re = re.compile(b"(?=(" + re.escape(pre) + b"[" + b"".join(re.escape(bytes([a])) for a in alts) + b"]" + re.escape(post) +
+                             (b"[\\s\\S]{%d,%d}?" % (lo, hi)) + re.escape(tail) + b"))", re.S)
 
 
 class Bomb:
@@ -288,7 +302,7 @@ def str_findall(s, b):
 def str_src(s):
     if isinstance(s, Chain):
         return s.src()
-    if isinstance(s, HexJump):
+    if isinstance(s, (HexJump, HexAlt)):
         return s.hexsrc
     if isinstance(s, Fullword):
         return s.src()
